@@ -158,6 +158,37 @@ if exe and os.path.exists(ck.driver()):
                 if len(samples) < 6:
                     samples.append(dict(case, trace_lines=nl,
                                         accept=rep[:60]))
+    # supporting evidence / search: BFS of the executable expansion model
+    # with the regenerated guards on small random shapes (spurious candidates
+    # included); total_out >= 3 (= EMIT_THRESH + 1, the theorems' hypothesis)
+    for k in range(10 if ck.quick else 120):
+        try:
+            ca = SD.random_shape(rng, tout=rng.randint(3, 6))
+            st = SD.bfs(drvd, ca, 150000)
+            bfs_states += st.get('states', 0)
+            bfs_trans += st.get('transitions', st.get('trans', 0))
+            badkeys = [x for x in ('stuck', 'overcap', 'badout', 'prefixviol',
+                                   'consviol', 'capviol', 'stale', 'taint',
+                                   'leakfinal') if st.get(x)]
+            if badkeys:
+                wit = None
+                try:
+                    wit = SD.find(drvd, ca, 150000, badkeys[0])
+                except Exception:
+                    pass
+                ck.violation(
+                    'the executable expansion-scheduler model with the '
+                    'regenerated guards reaches a bad state (%s) on shape %s'
+                    % (', '.join('%s=%d' % (x, st[x]) for x in badkeys),
+                       ' '.join(ca)),
+                    {'model': 'SchedD', 'shape_args': ca, 'bfs': st,
+                     'witness_labels': wit,
+                     'replay_cmd': 'echo "schedd-find %s 150000 %s" | '
+                                   'lean/.lake/build/bin/lbzdrv' %
+                                   (' '.join(ca), badkeys[0])})
+        except Exception as e:
+            ck.broken.append('schedd-bfs failed: %r' % e)
+            break
     drvd.close()
     # planted spurious headers with tiny granularities: must terminate with
     # the assertions on
